@@ -220,7 +220,9 @@ class RandTyped:
         if d > 0 and r.random() < 0.4:
             v = self.fresh(scope)
             c = self.flt(self.bind(scope, v, k), d - 1)
-            src, norm = f"{src}.Where(lambda {v}: {c[0]} > 1.0)", f"{norm}.Where(lambda {v}: {c[1]} > 1.0)"
+            kw = "filter=" if r.random() < 0.25 else ""
+            # (the operator's own lambda parameter is emitted positionally, like every parameter)
+            src, norm = f"{src}.Where({kw}lambda {v}: {c[0]} > 1.0)", f"{norm}.Where(lambda {v}: {c[1]} > 1.0)"
         return src, norm, k
 
     def expression(self):
@@ -237,7 +239,8 @@ class RandTyped:
             w = self.fresh(scope)
             b2 = self.flt(self.bind(scope, w, s[2]), d - 1)
             inner_s = b2[0].replace(f"{w}.", f"{w}.o.") if False else None
-        return f"{s[0]}.Select(lambda {v}: {b[0]})", f"{s[1]}.Select(lambda {v}: {b[1]})"
+        kw = "f=" if r.random() < 0.25 else ""
+        return f"{s[0]}.Select({kw}lambda {v}: {b[0]})", f"{s[1]}.Select(lambda {v}: {b[1]})"
 
 
 def fuzz(t, n):
